@@ -128,7 +128,7 @@ class InvocationClient(RunnerClient):
             v = ev.node.info["value"]
             if isinstance(v, ast.Call):
                 tg = ev.interp.prog.resolve_call(v, ev.func)
-                if any(t.func is not None and t.func.qual.endswith(("_RetryState.handle_exception", "_RetryState.handle_result", "_RetryState._handle_failure")) for t in tg):
+                if any(t.func is not None and t.func.qual.endswith(("_RetryState.handle_exception", "_RetryState.handle_result")) for t in tg):
                     rec = ev.value(v)
                     act = None
                     if rec is not None and rec[0] == "i":
@@ -334,3 +334,8 @@ def run(rep: Report, prog: Program, tier: str) -> None:
     check_iteration(rep, prog)
     check_caps(rep, prog)
     check_fresh_state(rep, prog)
+    rep.rule("R1.6", "the class the caps are applied to is the classifier's verdict on this very failure: handle_exception asks the classifier once about this exception and forwards the normalised answer; handle_result forwards the classification of this result; no verdict is cached or carried over between attempts or calls")
+    from .common import failure_entry
+
+    failure_entry(rep, "R1.6", prog)
+    rep.floor("R1.6", 2)
